@@ -22,12 +22,44 @@ import (
 // answered by noKillBetween.
 func sym(v ssa.Value) string { return symd(v, 0) }
 
+// ksym renders v for use in construct keys: like sym, but SSA temporaries are
+// named by their source-level role (phi comment, callee) instead of %tN, so
+// that keys survive unrelated edits.
+func ksym(v ssa.Value) string {
+	symPretty = true
+	defer func() { symPretty = false }()
+	return symd(v, 0)
+}
+
+var symPretty bool
+
+func opaque(v ssa.Value) string {
+	if !symPretty {
+		return "%" + v.Name()
+	}
+	switch x := v.(type) {
+	case *ssa.Phi:
+		if x.Comment != "" {
+			return "φ" + x.Comment
+		}
+		return "φ"
+	case *ssa.Call:
+		if cal := x.Call.StaticCallee(); cal != nil {
+			return cal.Name() + "()"
+		}
+		return "call()"
+	case *ssa.Extract:
+		return fmt.Sprintf("%s#%d", symd(x.Tuple, 3), x.Index)
+	}
+	return "_"
+}
+
 func symd(v ssa.Value, d int) string {
 	if v == nil {
 		return "<nil>"
 	}
 	if d > 12 {
-		return "%" + v.Name()
+		return opaque(v)
 	}
 	switch x := v.(type) {
 	case *ssa.Parameter:
@@ -75,7 +107,7 @@ func symd(v ssa.Value, d int) string {
 		if cal := staticCallee(&x.Call); cal != nil && identityFns[cal] && len(x.Call.Args) > 0 {
 			return symd(x.Call.Args[0], d+1)
 		}
-		return "%" + x.Name()
+		return opaque(x)
 	case *ssa.Slice:
 		s := symd(x.X, d+1) + "["
 		if x.Low != nil {
@@ -92,7 +124,7 @@ func symd(v ssa.Value, d int) string {
 	case *ssa.Alloc:
 		return "alloc:" + x.Name()
 	}
-	return "%" + v.Name()
+	return opaque(v)
 }
 
 // load returns the address operand if v is a load (*addr).
